@@ -401,6 +401,11 @@ class Lexer:
 
             elif state == 412:  # hex num second digit
                 tempbuf += ch
+                if any(c not in "0123456789abcdefABCDEF" for c in tempbuf):
+                    raise CklSyntaxError(
+                        f"Invalid hex escape \\x{tempbuf}",
+                        SourcePos(fname, line, column),
+                    )
                 token += chr(int(tempbuf, 16))
                 tempbuf = ""
                 state = 4
